@@ -39,8 +39,8 @@ OG = PolyOperands(max_terms=4, max_exp=2, kinds="if", max_names=3)
 
 
 @st.composite
-def case_st(draw):
-    fn = draw(st.sampled_from(FUNCS))
+def case_st(draw, only=None):
+    fn = only or draw(st.sampled_from(FUNCS))
     call = RECIPES[fn].gen(draw, OG)
     call["fn"] = fn
     # differences / joins need one coefficient kind
@@ -54,6 +54,14 @@ def case_st(draw):
 
 def strategy(tier):
     return case_st()
+
+
+def STRATA(tier):
+    return ["sum", "cumsum", "mean", "prod", "diff", "diff-2", "ediff1d", "inner", "outer", "matmul", "matmul-2", "det"]
+
+
+def strategy_for(tier, name):
+    return case_st(only=name.split("-")[0])
 
 
 def leibniz(m):
